@@ -40,7 +40,7 @@ package restful
 // CurlyRouter
 
 //@ func (CurlyRouter).matchesRouteByPathTokens
-//@ props C01 C02 C03 C18
+//@ props C01 C02 C03 C04 C18
 //@ requires wf: wfTemplate(routeTokens, routeHasCustomVerb)
 //@ ensures iff: matches == pathAdmits(routeTokens, requestTokens, routeHasCustomVerb)
 //@ ensures static: matches ==> staticCount == countStatic(routeTokens, len(routeTokens), routeHasCustomVerb)
@@ -57,7 +57,7 @@ package restful
 //@ loop 0 invariant counts: staticCount == countStatic(routeTokens, it_i, routeHasCustomVerb) && paramCount == countParams(routeTokens, it_i, routeHasCustomVerb)
 
 //@ func (CurlyRouter).regularMatchesPathToken
-//@ props C01 C02 C03 C18
+//@ props C01 C02 C03 C04 C18
 //@ requires var: isVarTok(routeToken)
 //@ requires colon: colon == strings.Index(routeToken, ":") && colon >= 0 && len(routeToken) >= colon+2
 //@ requires closed: strings.HasSuffix(routeToken, "}")
@@ -1207,20 +1207,20 @@ package restful
 //@ props C01 C03 C14 C18
 //@ requires ws: dispatcher != nil && routesLockOf(dispatcher) >= 0
 //@ requires wf: forall(0, len(dispatcher.routes), func(k int) bool { return jsrRouteOK(dispatcher.routes[k]) })
-//@ ensures sound: forall(0, len(result), func(j int) bool { return exists(0, old(len(dispatcher.routes)), func(k int) bool { return same(result[j], old(dispatcher.routes[k])) && jsrRouteHit(old(dispatcher.routes[k]), pathRemainder) }) })
-//@ ensures complete: forall(0, old(len(dispatcher.routes)), func(k int) bool { return jsrRouteHit(old(dispatcher.routes[k]), pathRemainder) ==> exists(0, len(result), func(j int) bool { return same(result[j], old(dispatcher.routes[k])) }) })
+//@ ensures S/sound: forall(0, len(result), func(j int) bool { return exists(0, old(len(dispatcher.routes)), func(k int) bool { return same(result[j], old(dispatcher.routes[k])) && jsrRouteHit(old(dispatcher.routes[k]), pathRemainder) }) })
+//@ ensures K/complete: forall(0, old(len(dispatcher.routes)), func(k int) bool { return jsrRouteHit(old(dispatcher.routes[k]), pathRemainder) ==> exists(0, len(result), func(j int) bool { return same(result[j], old(dispatcher.routes[k])) }) })
 //@ ensures sorted: forall(0, len(result), func(i int) bool { return forall(i+1, len(result), func(j int) bool { return !jsrRouteLess(jsrRouteCand(result[i], pathRemainder), jsrRouteCand(result[j], pathRemainder)) }) })
 //@ ensures fresh: fresh(result)
 //@ nopanic
 //@ modifies nothing
 //@ loop 0 invariant fresh: filtered != nil && fresh(filtered) && (filtered.candidates == nil || fresh(filtered.candidates))
 //@ loop 0 invariant cands: forall(0, len(filtered.candidates), func(j int) bool { return exists(0, it_i, func(k int) bool { return jsrRouteHit(old(dispatcher.routes[k]), pathRemainder) && same(filtered.candidates[j], jsrRouteCand(old(dispatcher.routes[k]), pathRemainder)) }) })
-//@ loop 0 invariant complete: forall(0, it_i, func(k int) bool { return jsrRouteHit(old(dispatcher.routes[k]), pathRemainder) ==> exists(0, len(filtered.candidates), func(j int) bool { return same(filtered.candidates[j], jsrRouteCand(old(dispatcher.routes[k]), pathRemainder)) }) })
+//@ loop 0 invariant K/complete: forall(0, it_i, func(k int) bool { return jsrRouteHit(old(dispatcher.routes[k]), pathRemainder) ==> exists(0, len(filtered.candidates), func(j int) bool { return same(filtered.candidates[j], jsrRouteCand(old(dispatcher.routes[k]), pathRemainder)) }) })
 //@ loop 1 invariant fresh: filtered != nil && fresh(filtered) && fresh(filtered.candidates) && fresh(matchingRoutes)
 //@ loop 1 invariant index: 1 <= c && c <= len(filtered.candidates) && len(matchingRoutes) == c
 //@ loop 1 invariant copied: forall(0, c, func(k int) bool { return same(matchingRoutes[k], filtered.candidates[k].route) })
 //@ loop 1 invariant cands: forall(0, len(filtered.candidates), func(j int) bool { return exists(0, old(len(dispatcher.routes)), func(k int) bool { return jsrRouteHit(old(dispatcher.routes[k]), pathRemainder) && same(filtered.candidates[j], jsrRouteCand(old(dispatcher.routes[k]), pathRemainder)) }) })
-//@ loop 1 invariant sound: forall(0, len(matchingRoutes), func(j int) bool { return exists(0, old(len(dispatcher.routes)), func(k int) bool { return same(matchingRoutes[j], old(dispatcher.routes[k])) && jsrRouteHit(old(dispatcher.routes[k]), pathRemainder) }) })
+//@ loop 1 invariant S/sound: forall(0, len(matchingRoutes), func(j int) bool { return exists(0, old(len(dispatcher.routes)), func(k int) bool { return same(matchingRoutes[j], old(dispatcher.routes[k])) && jsrRouteHit(old(dispatcher.routes[k]), pathRemainder) }) })
 
 // RouterJSR311.SelectRoute: 404 exactly when no root expression matches or no route of the best service
 // matches the remainder; otherwise the detectRoute stage decides among exactly the matching routes of
